@@ -6,11 +6,46 @@ SPEC = {
     'lean_modules': ['N2k.Props.C09'], 'props_files': ['N2k/Props/C09.lean'],
     'translators': ['pgn_tables'],
     'case_start': ['reset'],
-    'trusted_base': [],
-    'assumptions': [],
+    'trusted_base': ["model N2k/Model/GroupFunction.lean transcribes N2kGroupFunction.cpp, N2kGroupFunctionDefaultHandlers.cpp and "
+                     "HandleGroupFunction / RespondGroupFunction / AddGroupFunctionHandler / SetDeviceInformationInstances / "
+                     "SetInstallationDescription1,2 / SetHeartbeatIntervalAndOffset / SendIsoAddressClaim(delayed) / the message builders "
+                     "for 126464, 126996, 126998, 126993 of NMEA2000.cpp by hand, at the level of a reassembled tN2kMsg; the send path is "
+                     "N2k/Model/Send.lean (C01/C04/C11)",
+                     "default transmit/receive PGN lists are REGENERATED from src/NMEA2000.cpp on every run (tools/translators/pgn_tables.py)",
+                     "frozen request layout: lean/N2k/Spec/GroupFunction.lean (header, parameter pairs in the field widths of PGN 60928 / "
+                     "126464 / 126996 / 126998); the harness oracle has its own reader of the same layout",
+                     "string codec inside the model (GetStr, GetVarStr, UCS-2 <-> UTF-8, AddVarStr) is a list-level transcription validated "
+                     "by the differential run only; its memory safety is C16's subject"],
+    'assumptions': ["node open and address claims settled; mode NodeOnly / ListenAndNode (other modes: correspondence only)",
+                    "fast-packet carriage of the request (ISO-TP flag carried through the model, not exercised); 0 <= DataLen <= 223",
+                    "configuration information set with three non-null RAM strings; every device 0 has RAM product information",
+                    "stored installation descriptions are valid UTF-8 (7-bit type-1 strings and UCS-2 strings always are)",
+                    "the periodic heartbeat and the first two bytes (interval encoding) of PGN 126993 are C12's subject and are not compared",
+                    "retry of product/configuration information after a failed send (pending flags) is C08's subject"],
 }
 MANIFEST = {
-    'text': "",
+    'text': "Theorems over the model of HandleGroupFunction for ALL messages, handler chains and device states: Acknowledge / ReadReply / "
+            "WriteReply function codes and broadcast Command / Read / Write produce no output and no state change; nothing sent to the "
+            "global address is ever acknowledged; an addressed Request / Command / Read / Write (chain with a default handler) yields "
+            "either the requested PGN (only Request, only the five served PGNs) or exactly one Acknowledge whose bytes 1..3 echo the PGN, "
+            "byte 5 the pair count, with ceil(pairs/2) parameter bytes (<= 134 bytes for pair counts 0..255); for well-formed requests "
+            "to 60928 / 126464 / 126996 / 126998 with ANY list of selection fields the request is served iff every field equals the "
+            "device's value of THAT attribute (per field: unique number ... industry group; database version, product code, model id, "
+            "software code, model version, serial code, certification, LEN; installation description 1/2, manufacturer information), "
+            "an unknown field number gives error code 1 for it and 2 for the rest; the 60928 command stores lower/upper/system instance "
+            "masked to 3/5/4 bits and latches device-information-changed iff something changed; the 126998 command stores the "
+            "descriptions, latches the flag and a following configuration-information request is served with them; the 126993 request "
+            "sets interval (1000..60000 ms) and offset (<= 60000 ms) and is refused outside and for 0 with the state unchanged. "
+            "Correspondence: the real node behind a mock CAN driver (both timer builds) receives generated fast-packet 126208 messages "
+            "(per-field match/mismatch/other-attribute/truncated/repeated/unknown experiments for every field of every handler, all "
+            "function codes x dedicated/transmit/unknown/proprietary PGNs x addressed/broadcast/foreign, pair counts 0..255, interval/"
+            "offset boundaries and random 32/16-bit values, command sequences with read-back, malformed bodies of every length); emitted "
+            "messages and getDevInfo/getInstDesc/getHeartbeat/readResetFlags are diffed against the model and judged by an oracle that "
+            "reads the request itself.",
     'design_ref': 'DESIGN.md section 4, C09',
-    'note': "",
+    'note': "Trusted: Lean kernel; hand model validated by differential runs; PGN tables translator. Model is of the repaired code "
+            "(two fix commits in the worktree). Error-code DETAILS beyond the statement are transcribed, not demanded (observed: the 60928 "
+            "command never reports a priority error; a Command for a transmit PGN without command support is acknowledged positively; "
+            "60928 request fields 6 and 10 are accepted with any value; a string field after an earlier mismatch gets code 3 even when it "
+            "matches; a malformed 126998 command string stores an empty description).",
 }
